@@ -140,7 +140,9 @@ def run(ctx):
            construct='discard-sql-deallocates')
 
     # ---- R16.2 cache key = (query, types) -------------------------------------------------------------
-    for fn in ('get', 'insert', 'remove'):
+    kadt = c.adt(KEY)
+    # (without the key type - a cache indexed in another way - the key rules have nothing to say: UNDECIDED below, never an alarm)
+    for fn in ('get', 'insert', 'remove') if kadt is not None else ():
         b = B(SC + '::' + fn)
         ban = prog.an(b)
         aggs = [s for blk in b.blocks for s in blk.stmts if s.kind == 'assign' and s.rv.kind == 'agg' and s.rv.j.get('adt') == KEY and not blk.cleanup]
@@ -155,10 +157,12 @@ def run(ctx):
         mops = [blk for blk in b.blocks if blk.term.kind == 'call' and not blk.cleanup and any(n.startswith('std::collections::HashMap::') and n.split('::')[-1] in ('get', 'insert', 'remove') for n in blk.term.callee_names())]
         okm = len(mops) == 1 and any(s[0] == 'agg' and s[1].startswith(KEY) for s in sources(ban, mops[0].term.args[1]))
         ctx.ob('R16.2', '%s uses that key on the map' % fn, okm, ctx.where(b), '', construct='key-use:' + fn)
-    kadt = c.adt(KEY)
-    kf = sorted(f['name'] for f in kadt['variants'][0]['fields'])
-    derived = {i['trait'] for i in c.impls if adt_of(i['self_ty']) == KEY and i['derived']}
-    ctx.ob('R16.2', 'the key type hashes and compares both fields (derived)', kf == ['query', 'types'] and {'std::hash::Hash', 'std::cmp::PartialEq', 'std::cmp::Eq'} <= derived, '', 'fields %s derived %s' % (kf, sorted(derived)), construct='key-type')
+    if kadt is None:
+        ctx.undecide('R16.2', 'the (query, types) key type of the statement cache was not found: the cache is indexed differently')
+    else:
+        kf = sorted(f['name'] for f in kadt['variants'][0]['fields'])
+        derived = {i['trait'] for i in c.impls if adt_of(i['self_ty']) == KEY and i['derived']}
+        ctx.ob('R16.2', 'the key type hashes and compares both fields (derived)', kf == ['query', 'types'] and {'std::hash::Hash', 'std::cmp::PartialEq', 'std::cmp::Eq'} <= derived, '', 'fields %s derived %s' % (kf, sorted(derived)), construct='key-type')
     pt = B(SC + '::prepare_typed::{closure#0}')
     pan = prog.an(pt)
     def call_of(name):
